@@ -1,7 +1,7 @@
 """C03 -- each yielded IVP point is a step of the advertised method (src/ivp.rs, src/ivp/rk.rs, adams.rs, bdf.rs)."""
 from vx.unit import Unit
 from vx.extract import Config
-from specs_ivpcommon import cfg, CALLBACK_SPEC
+from specs_ivpcommon import cfg, CALLBACK_SPEC, HIST_SPEC
 
 RK = "src/ivp/rk.rs"
 
@@ -324,11 +324,13 @@ pub open spec fn rk4(t: real, y: Seq<real>, h: real, half: real, two: real, sixt
     vadd(y, vscale(vadd(vadd(vadd(k1, vscale(k2, two)), vscale(k3, two)), k4), sixth))
 }
 pub open spec fn rk_t(t: real, h: real, n: int) -> real decreases n { if n <= 0 { t } else { rk_t(t, h, n - 1) + h } }
+pub proof fn lemma_rk_t(t: real, h: real, n: int) requires n >= 0 ensures rk_t(t, h, n) == t + (n as real) * h decreases n {
+    if n > 0 { lemma_rk_t(t, h, n - 1); assert((n as real) * h == ((n - 1) as real) * h + h) by(nonlinear_arith); }
+    else { assert((n as real) * h == 0real) by(nonlinear_arith) requires n == 0; }
+}
 pub open spec fn rk_y(t: real, y: Seq<real>, h: real, n: int, half: real, two: real, sixth: real) -> Seq<real> decreases n {
     if n <= 0 { y } else { rk4(rk_t(t, h, n - 1), rk_y(t, y, h, n - 1, half, two, sixth), h, half, two, sixth) }
 }
-pub open spec fn pvv(d: VecDeque<(R, V)>) -> Seq<(real, Seq<real>)> { Seq::new(d@.len(), |i: int| (d@[i].0@, d@[i].1@)) }
-pub open spec fn pdv(d: VecDeque<V>) -> Seq<Seq<real>> { Seq::new(d@.len(), |i: int| d@[i]@) }
 """
 
 
@@ -337,6 +339,8 @@ def adams_solver_unit(prop="C03"):
                    ("Step<Self::RealField, Self::Field, D, Self::Error>", "Result<(R, V), IVPStatus<IVPError>>")])
     u = Unit(prop, "adams_solver", preludes=("real", "stdx", "ivp", "rkm", "deque"), cfg=c)
     u.crate_attrs = ["#![feature(allocator_api)]"]
+    u.rlimit = 300
+    u.timeout = 900
     u.spec("use std::collections::VecDeque;")
     u.item("src/lib.rs", "enum", "DimensionError")
     u.item("src/ivp.rs", "enum", "IVPError")
@@ -344,12 +348,13 @@ def adams_solver_unit(prop="C03"):
     u.item(AD, "struct", "AdamsSolver")
     u.spec(CALLBACK_SPEC)
     u.spec(ADAMS_SPEC)
+    u.spec(HIST_SPEC)
     G = "<D: Dimension, const O: usize, T: Clone, F: FnMut(R, &[R], &mut T) -> Result<V, UserError>>"
     u.spec("impl" + G + r""" AdamsSolver<D, O, T, F> {
     pub open spec fn setup_ok(&self) -> bool {
-        &&& O >= 3 && self.predictor_coefficients@.len() == O && self.corrector_coefficients@.len() == O
+        &&& 3 <= O <= 64 && self.predictor_coefficients@.len() == O && self.corrector_coefficients@.len() == O
         &&& self.one_tenth@ == 1real / 10real && self.one_sixth@ == 1real / 6real && self.half@ == 1real / 2real && self.two@ == 2real && self.four@ == 4real
-        &&& self.order@ == O as real && self.dt_max@ > 0real
+        &&& self.order@ == O as real && self.dt_max@ > 0real && self.tolerance@ > 0real && self.error_coefficient@ > 0real
         &&& (forall|t: R, y: &[R], d: &mut T| #[trigger] self.derivative.requires((t, y, d)))
         &&& (forall|t: R, y: &[R], d: &mut T, r: Result<V, UserError>| #[trigger] self.derivative.ensures((t, y, d), r) ==>
               (df_ok(t@, slice_view(y)) ==> r is Ok && r->Ok_0@ == df_val(t@, slice_view(y)) && r->Ok_0@.len() == y@.len())
@@ -380,21 +385,19 @@ def adams_solver_unit(prop="C03"):
     pub open spec fn err(&self) -> real { self.error_coefficient@ / self.dt@ * vnorm(vsub(self.corrector(), self.predictor())) }
     // ---- the history: equally spaced points with a derivative that belongs to each point's time ----
     pub open spec fn hist_ok(&self) -> bool {
-        let pv = self.pv(); let pd = self.pd(); let n = pv.len() as int; let ym = self.yield_memory as int;
-        &&& self.dt@ > 0real && self.dt@ <= self.dt_max@ && ym <= O + 1
-        &&& ((ym == 0 || ym == O) && self.time@ >= self.end@) || {
-            &&& pd.len() == n && (n == 0 || n == O - 1) && (ym != 0 ==> n == O - 1)
-            &&& forall|i: int| 0 <= i < n - 1 ==> #[trigger] spaced(pv, i, self.dt@)
-            &&& forall|i: int| 0 <= i < n ==> #[trigger] deriv_at(pd[i], pv[i].0) && pd[i].len() == self.state@.len() && pv[i].1.len() == self.state@.len()
-            &&& n > 0 ==> if ym == 0 || ym == O { pv[n - 1] == (self.time@, self.state@) }
-                          else { pv[n - 1].0 + self.dt@ == self.time@ && deriv_at(self.implicit_derivs@, self.time@) && self.implicit_derivs@.len() == self.state@.len() }
-        }
+        hist(O as int, self.dt@, self.dt_max@, self.yield_memory as int, self.time@, self.end@, self.pv(), self.pd(), self.save_state@.len(), self.state@, self.implicit_derivs@)
+    }
+    // this call tries a predictor-corrector step
+    pub open spec fn multistep_trial(&self) -> bool {
+        (self.yield_memory == 0 || self.yield_memory == O) && self.time@ + self.dt@ < self.end@ && self.pv().len() > 0
+    }
+    // every field but scratch_pad and implicit_derivs
+    pub open spec fn frame(&self, o: &Self) -> bool {
+        self.same_setup(o) && self.time == o.time && self.state == o.state && self.dt == o.dt && self.data == o.data && self.prev_values == o.prev_values
+        && self.prev_derivatives == o.prev_derivatives && self.save_state == o.save_state && self.yield_memory == o.yield_memory
     }
     pub open spec fn inv(&self) -> bool { self.setup_ok() && self.hist_ok() && self.time@ <= self.end@ }
 }
-pub open spec fn spaced(pv: Seq<(real, Seq<real>)>, i: int, h: real) -> bool { pv[i + 1].0 == pv[i].0 + h }
-// d is the user's derivative function evaluated AT TIME t (at the accepted or at the predicted state)
-pub open spec fn deriv_at(d: Seq<real>, t: real) -> bool { exists|p: Seq<real>| d == #[trigger] df_val(t, p) }
 """)
     im = u.impl(AD, "AdamsSolver<'a, N, D, O, T, F>", header="impl" + G + " AdamsSolver<D, O, T, F>", keep_assoc=False)
     im2 = u.impl(AD, "IVPStepper<D> for AdamsSolver<'a, N, D, O, T, F>", header="impl" + G + " AdamsSolver<D, O, T, F>", keep_assoc=False)
@@ -407,8 +410,10 @@ pub open spec fn deriv_at(d: Seq<real>, t: real) -> bool { exists|p: Seq<real>| 
           # `iterations` classical RK4 steps of length dt; every new point and its derivative is appended to the history
           "res is Ok ==> final(self).time@ == old(self).rkt(iterations as int) && final(self).state@ == old(self).rky(iterations as int)",
           "res is Ok ==> pvv(final(self).prev_values) == pvv(old(self).prev_values) + Seq::new(iterations as nat, |j: int| (old(self).rkt(j + 1), old(self).rky(j + 1)))",
-          "res is Ok ==> pdv(final(self).prev_derivatives) == pdv(old(self).prev_derivatives) + Seq::new(iterations as nat, |j: int| df_val(old(self).rkt(j + 1), old(self).rky(j + 1)))")
+          "res is Ok ==> pdv(final(self).prev_derivatives) == pdv(old(self).prev_derivatives) + Seq::new(iterations as nat, |j: int| df_val(old(self).rkt(j + 1), old(self).rky(j + 1)))",
+          "res is Ok ==> forall|j: int| 0 <= j <= iterations ==> (#[trigger] old(self).rky(j)).len() == old(self).state@.len() && (j >= 1 ==> df_val(old(self).rkt(j), old(self).rky(j)).len() == old(self).state@.len())")
     f.loop(1, invariant=[
+        "forall|j: int| 0 <= j <= i ==> (#[trigger] old(self).rky(j)).len() == old(self).state@.len() && (1 <= j < i ==> df_val(old(self).rkt(j), old(self).rky(j)).len() == old(self).state@.len())",
         "self.setup_ok()", "self.same_setup(old(self)) && self.dt == old(self).dt && self.yield_memory == old(self).yield_memory && self.save_state == old(self).save_state && self.implicit_derivs == old(self).implicit_derivs",
         "self.state@.len() == old(self).state@.len()", "iterations >= 1",
         "self.time@ == old(self).rkt(i as int) && self.state@ == old(self).rky(i as int)",
@@ -437,8 +442,16 @@ pub open spec fn deriv_at(d: Seq<real>, t: real) -> bool { exists|p: Seq<real>| 
         }""")
     g = im2.fn("step")
     g.attrs = []
+    # R28: Clone for a tuple is the component-wise clone (Verus has no built-in tuple Clone instance)
+    g.opt(subst=[("self.prev_values[get_item].clone()", "(self.prev_values[get_item].0.clone(), self.prev_values[get_item].1.clone())", "R28-tuple-clone"),
+                 ("&corrector - &predictor", "corrector.vx_sub_ref(&predictor)", "R29-ref-operator-as-call"),
+                 # R16: `e?` whose error is converted (From) spelled out as Rust defines it
+                 ("self.runge_kutta(1)?", "(match self.runge_kutta(1) { Ok(v_) => v_, Err(e_) => return Err(From::from(e_)) })", "R16-question-mark-convert"),
+                 ("self.runge_kutta(O - 1)?", "(match self.runge_kutta(O - 1) { Ok(v_) => v_, Err(e_) => return Err(From::from(e_)) })", "R16-question-mark-convert")])
     g.req("old(self).inv()")
-    g.ens("final(self).inv()", "final(self).same_setup(old(self))",
+    g.ens(# the solver invariant is kept, except after a Failure (the iterator never calls step() again) and in the corner of an
+          # exactly zero error estimate (tolerance / 0 is +inf in floating point and unspecified over the reals)
+          "!(res is Err && res->Err_0 is Failure) && !(old(self).multistep_trial() && old(self).err() == 0real) ==> final(self).inv()", "final(self).same_setup(old(self))",
           # -- yielding a start-up point that was taken earlier
           "0 < old(self).yield_memory < O ==> res is Ok && (res->Ok_0.0@, res->Ok_0.1@) == old(self).pv()[O - old(self).yield_memory - 1] "
           "&& final(self).time == old(self).time && final(self).state == old(self).state && final(self).dt == old(self).dt",
@@ -456,6 +469,110 @@ pub open spec fn deriv_at(d: Seq<real>, t: real) -> bool { exists|p: Seq<real>| 
           "&& final(self).time@ == res->Ok_0.0@ && final(self).state@ == res->Ok_0.1@ && df_ok(old(self).time@ + old(self).dt@, old(self).predictor())",
           # C01: ordered, inside the interval, gap-bounded (for the points produced by this call)
           "(old(self).yield_memory == 0 || old(self).yield_memory == O) && res is Ok ==> old(self).time@ < res->Ok_0.0@ <= old(self).end@ && res->Ok_0.0@ - old(self).time@ <= old(self).dt_max@")
+    def A(x):
+        return (f"O as int, {x}.dt@, {x}.dt_max@, {x}.yield_memory as int, {x}.time@, {x}.end@, {x}.pv(), {x}.pd(), {x}.save_state@.len(), {x}.state@, {x}.implicit_derivs@")
+    g.hint("begin", "let ghost s0 = *self; proof { lemma_hist_basic(" + A("s0") + "); if !((s0.yield_memory == 0 || s0.yield_memory == O) && s0.time@ >= s0.end@) { lemma_hist_use(" + A("s0") + "); } }")
+    # -- yield a start-up point
+    g.hint("before: return Ok(self.prev_values[get_item]", "proof { lemma_hist_yield(O as int, s0.dt@, s0.dt_max@, s0.yield_memory as int, self.yield_memory as int, s0.time@, s0.end@, s0.pv(), s0.pd(), s0.save_state@.len(), s0.state@, s0.implicit_derivs@); }")
+    # -- hand the first multistep point over
+    g.hint("before: #1 return Ok((self.time.real(), self.state.clone()));", """proof {
+            lemma_hist_handover(O as int, s0.dt@, s0.dt_max@, s0.time@, s0.end@, s0.pv(), s0.pd(), s0.save_state@.len(), s0.state@, s0.implicit_derivs@);
+            assert(self.pv() =~= s0.pv().push((s0.time@, s0.state@)).drop_first());
+            assert(self.pd() =~= s0.pd().push(s0.implicit_derivs@).drop_first());
+        }""")
+    # -- last step
+    g.hint("before: self.runge_kutta(1)", "let ghost pre4 = *self;")
+    g.hint("after: self.runge_kutta(1)", """proof {
+            reveal_with_fuel(rk_t, 2); reveal_with_fuel(rk_y, 2);
+            assert(pre4.rkt(1) == pre4.time@ + pre4.dt@);
+            assert(pre4.rky(1) == pre4.rk4s(pre4.time@, pre4.state@, pre4.dt@));
+            let pvn = pvv(self.prev_values);
+            assert(pvn[pvn.len() - 1] == (pre4.rkt(1), pre4.rky(1)));
+            lemma_hist_done(""" + A("self") + """);
+        }""")
+    # -- start-up
+    g.hint("before: self.runge_kutta(O - 1)", """let ghost pre5 = *self;
+            proof {
+                let a = s0.end@ - s0.time@; let b = self.order@ - 1real; let d0 = s0.dt@;
+                assert(b >= 2real);
+                if self.dt@ != d0 {
+                    assert(a / b > 0real) by(nonlinear_arith) requires a > 0real, b > 0real;
+                    assert(a / b <= d0) by(nonlinear_arith) requires a <= d0 * b, b > 0real;
+                }
+            }""")
+    g.hint("before: #1 return Err(IVPStatus::Redo);", """proof {
+                let pvn = pvv(self.prev_values); let pdn = pdv(self.prev_derivatives); let dim = self.state@.len();
+                assert(pvv(pre5.prev_values).len() == 0 && pdv(pre5.prev_derivatives).len() == 0);
+                assert forall|i: int| 0 <= i < pvn.len() - 1 implies #[trigger] spaced(pvn, i, self.dt@) by {
+                    reveal_with_fuel(rk_t, 2); assert(pre5.rkt(i + 2) == pre5.rkt(i + 1) + pre5.dt@);
+                }
+                assert forall|i: int| 0 <= i < pvn.len() implies #[trigger] entry_ok(pvn, pdn, i, dim) by {
+                    assert(pdn[i] == df_val(pvn[i].0, pre5.rky(i + 1)));
+                    assert(pre5.rky(i + 1).len() == dim);
+                }
+                assert(pvn.len() == O - 1 && pdn.len() == O - 1);
+                assert(self.dt@ > 0real && self.dt@ <= self.dt_max@);
+                lemma_rk_t(pre5.time@, pre5.dt@, O - 1);
+                let m = (O - 1) as real; let hh = pre5.dt@; let a = s0.end@ - s0.time@; let d0 = s0.dt@;
+                assert(m == self.order@ - 1real);
+                assert(self.time@ == pre5.time@ + m * hh);
+                if s0.time@ + d0 * m >= s0.end@ { assert(hh == a / m); assert(m * (a / m) == a) by(nonlinear_arith) requires m >= 2real; }
+                else { assert(hh == d0); assert(m * hh == hh * m) by(nonlinear_arith); }
+                assert(self.time@ <= self.end@);
+                assert(self.save_state@.len() == dim);
+                assert(pvn[pvn.len() - 1] == (self.time@, self.state@));
+                lemma_hist_intro(""" + A("self") + """);
+            }""")
+    # -- predictor-corrector trial
+    PRE = ["pre.inv() && pre.frame(&s0) && s0.inv() && (pre.yield_memory == 0 || pre.yield_memory == O) && pre.pv().len() == O - 1 && pre.pd().len() == O - 1 && pre.time@ + pre.dt@ < pre.end@",
+           "forall|k: int| 0 <= k < O - 1 ==> #[trigger] entry_ok(pre.pv(), pre.pd(), k, pre.state@.len())",
+           "self.frame(&pre)", "self.scratch_pad@.len() == self.state@.len()"]
+    g.hint("before: self.scratch_pad = &self.prev_derivatives[0]", """let ghost pre = *self;
+        proof {
+            assert(entry_ok(pre.pv(), pre.pd(), 0, pre.state@.len()));
+            assert(pre.psum(1) == vscale(pre.pd()[0], pre.predictor_coefficients@[O - 2]@));
+        }""")
+    g.loop(1, invariant=PRE + ["1 <= i <= O - 1", "self.scratch_pad@ == pre.psum(i as int)", "self.implicit_derivs == pre.implicit_derivs"])
+    g.hint("loop 1 begin", "proof { assert(entry_ok(pre.pv(), pre.pd(), i as int, pre.state@.len())); }")
+    g.hint("after: let predictor =", "proof { assert(predictor@ == pre.predictor()); }")
+    g.hint("before: self.scratch_pad = &self.implicit_derivs", "proof { assert(self.implicit_derivs@ == pre.imp()); assert(df_ok(pre.time@ + pre.dt@, pre.predictor())); }")
+    g.loop(2, invariant=PRE + ["0 <= i <= O - 1", "self.scratch_pad@ == pre.csum(i as int)", "self.implicit_derivs@ == pre.imp() && self.implicit_derivs@.len() == self.state@.len()",
+                               "predictor@ == pre.predictor() && predictor@.len() == self.state@.len()", "df_ok(pre.time@ + pre.dt@, pre.predictor())"])
+    g.hint("loop 2 begin", "proof { assert(entry_ok(pre.pv(), pre.pd(), i as int, pre.state@.len())); }")
+    g.hint("after: let error =", """proof {
+            assert(corrector@ == pre.corrector()); assert(error@ == pre.err());
+            let n = vnorm(vsub(pre.corrector(), pre.predictor())); let ec = pre.error_coefficient@; let d = pre.dt@;
+            axiom_vnorm_nonneg(vsub(pre.corrector(), pre.predictor()));
+            assert(ec / d * n >= 0real) by(nonlinear_arith) requires ec > 0real, d > 0real, n >= 0real;
+            assert(deriv_at(self.implicit_derivs@, pre.time@ + pre.dt@));
+        }""")
+    # accepted right after start-up: kept aside
+    g.hint("before: #2 return Err(IVPStatus::Redo);", "proof { lemma_hist_aside(O as int, pre.dt@, pre.dt_max@, pre.time@, pre.end@, pre.pv(), pre.pd(), pre.save_state@.len(), pre.state@, pre.implicit_derivs@, self.time@, self.state@, self.implicit_derivs@); }")
+    # accepted: enters the history
+    g.hint("before: if error < self.one_tenth.real() * self.tolerance.real()", """proof {
+                lemma_hist_shift(O as int, pre.dt@, pre.dt_max@, pre.time@, pre.end@, pre.pv(), pre.pd(), pre.save_state@.len(), pre.state@, pre.implicit_derivs@, self.time@, self.state@, self.implicit_derivs@);
+                assert(self.pv() =~= pre.pv().push((self.time@, self.state@)).drop_first());
+                assert(self.pd() =~= pre.pd().push(self.implicit_derivs@).drop_first());
+            }""")
+    g.hint("before: self.prev_values.clear();", """proof {
+                    let d = pre.dt@; let qq = q@; let e = error@; let tl = self.tolerance@;
+                    if e != 0real {
+                        assert(tl / (2real * e) > 0real) by(nonlinear_arith) requires tl > 0real, e > 0real;
+                        assert(d * 4real > 0real && (qq > 0real ==> d * qq > 0real)) by(nonlinear_arith) requires d > 0real;
+                    }
+                }""")
+    g.hint("before: #2 return Ok((self.time.real(), self.state.clone()));", """proof {
+                if self.pv().len() == 0 && error@ != 0real { lemma_hist_empty(""" + A("self") + """); }
+            }""")
+    # rejected
+    g.hint("before: if self.dt.real() < self.dt_min.real()", """proof {
+            let d = pre.dt@; let qq = q@; let e = error@; let tl = self.tolerance@; let b = self.order@ - 1real; let od = self.order@;
+            assert(0real < tl / (2real * e) < 1real) by(nonlinear_arith) requires tl > 0real, e > tl;
+            assert(1real / od > 0real) by(nonlinear_arith) requires od >= 3real;
+            assert(0real < d * (1real / 10real) < d && (1real / 10real <= qq < 1real ==> 0real < d * qq < d)) by(nonlinear_arith) requires d > 0real;
+            assert(d * b >= 0real) by(nonlinear_arith) requires d > 0real, b >= 2real;
+        }""")
+    g.hint("before: #3 Err(IVPStatus::Redo)", "proof { lemma_hist_empty(" + A("self") + "); }")
     return u, f
 
 
